@@ -20,15 +20,16 @@ Ltac atom c ::=
   | Bool.eqb ?a _ => atom a
   | _ => constr:(c)
   end.
+(* [once]: when the final [reflexivity] fails (a mutated source) Ltac must not retry every other order of case analysis *)
 Ltac c_split_if :=
-  match goal with
+  once match goal with
   | |- context [if ?c then _ else _] =>
     let a := atom c in
     lazymatch a with true => fail | false => fail | context [if _ then _ else _] => fail | _ => idtac end;
     destruct a eqn:?; cbn [andb orb negb Bool.eqb]; cbv beta iota
   end.
 Ltac c_split_opt :=
-  match goal with
+  once match goal with
   | |- context [match ?x with Some _ => _ | None => _ end] =>
     lazymatch x with
     | Some _ => fail | None => fail
@@ -141,17 +142,21 @@ Section CC.
       rewrite ?cc_dev_growth, ?cc_dev_decline, ?cc_required_time_src_cgc_ok, ?adjust_CCx_src_ok,
               ?update_CCx_CDC_src_ok, ?(water_stress_src_ok Hone), ?Hrint, ?Hpred.
     Ltac q_split_if :=
-      match goal with
+      once match goal with
       | |- context [if ?c then _ else _] =>
         let a := atom c in
         lazymatch a with true => fail | false => fail | context [if _ then _ else _] => fail | _ => idtac end;
         destruct a; cbn [andb orb negb Bool.eqb]; cbv beta iota
       end.
+    (* [once]: [repeat] is a backtracking point (it may stop earlier); when a leaf fails, Ltac must not re-run the final
+       check on every prefix of the case analysis *)
     Ltac phase :=
-      cbv beta zeta;
-      repeat (first [ progress cc_rw; unfold ksw_tuple, update_CCx_CDC; cbn [andb]; cbv beta iota zeta
-                    | q_split_if ]);
-      reflexivity.
+      once (cbv beta zeta;
+            repeat (first [ progress cc_rw; unfold ksw_tuple, update_CCx_CDC; cbn [andb]; cbv beta iota zeta
+                          | q_split_if ]));
+      (* the leaves are closed by conversion in milliseconds; a leaf that does NOT hold (mutated source) can send the
+         conversion test into unfolding the hand model for minutes, hence the time limit *)
+      timeout 30 reflexivity.
 
     Ltac cc_body k s tcc dt Dr taw et0 ksw :=
       (* potential canopy *)
